@@ -381,4 +381,9 @@ theorem source_esHandleErrorResponses : GeneratedSrc.esHandleErrorResponses = Ex
 theorem source_esProcessAsync : GeneratedSrc.esProcessAsync = ExpectedSrc.esProcessAsync := by rfl
 theorem source_esShutdown : GeneratedSrc.esShutdown = ExpectedSrc.esShutdown := by rfl
 
+
+/-! ### functions the model's assumptions rest on (construction, wiring, surrounding calls) are unchanged -/
+theorem source_esSetup : GeneratedSrc.esSetup = ExpectedSrc.esSetup := by rfl
+theorem source_newElasticIndexClient : GeneratedSrc.newElasticIndexClient = ExpectedSrc.newElasticIndexClient := by rfl
+
 end Firebolt.C14
